@@ -886,8 +886,11 @@ class XsdElement(XsdComponent, ParticleMixin,
                 if not counter.enabled:
                     continue
 
-            if counter.elements is None:
-                # Apply selector on Element ancestor for obtain the selected elements
+            if counter.elements is None or \
+                    obj not in counter.elements and context.source.is_lazy():
+                # Apply selector on Element ancestor for obtain the selected elements.
+                # The tree of a lazy resource grows while it is validated, so a new
+                # element is looked up in a fresh selection.
                 root_node = context.source.get_xpath_node(counter.elem)
                 xpath_context = XPathContext(root_node)
                 assert identity.selector is not None
